@@ -68,7 +68,7 @@ func (World) Generate(r *engine.RNG, tier string) *engine.Script {
 			// the usual follow-up: somebody fetches it
 			s.Ops = append(s.Ops, engine.Op{Op: "fetch", N: []int64{tag, int64(r.Intn(3)), int64(r.Intn(3))}})
 		case k < 5:
-			s.Ops = append(s.Ops, engine.Op{Op: "corrupt", N: []int64{int64(r.Intn(max(nct, 1))), int64(r.Intn(4)), int64(r.Intn(1 << 16)), int64(1 + r.Intn(255))}})
+			s.Ops = append(s.Ops, engine.Op{Op: "corrupt", N: []int64{int64(r.Intn(max(nct, 1))), int64(r.PickInt(0, 0, 1, 2, 2, 2, 3, 3, 4)), int64(r.Intn(1 << 16)), int64(r.PickInt(1+r.Intn(255), 1<<uint(r.Intn(8))))}})
 			s.Ops = append(s.Ops, engine.Op{Op: "fetch", N: []int64{int64(r.Intn(max(nct, 1))), int64(r.Intn(3)), int64(r.Intn(3))}})
 		case k < 6:
 			s.Ops = append(s.Ops, engine.Op{Op: "resize", N: []int64{int64(r.Intn(max(nct, 1))), int64(r.PickInt(-1, -2, -16, -17, 1, 2, 16, -60))}})
@@ -182,6 +182,7 @@ func (f *faultyReader) Read(b []byte) (int, error) {
 }
 
 type stored struct {
+	orig      []byte
 	ct        []byte
 	plain     []byte
 	client    int
@@ -264,9 +265,13 @@ func (World) Execute(t *testing.T, s *engine.Script) *engine.Outcome {
 			if st == nil || len(st.ct) == 0 {
 				continue
 			}
-			region := []string{"ephemeral_key", "nonce", "ciphertext", "tag"}[int(op.N[1])%4]
+			region := []string{"ephemeral_key", "nonce", "ciphertext", "tag", "ephemeral_key_top_bit"}[int(op.N[1])%5]
 			lo, hi := 0, 32
 			switch region {
+			case "ephemeral_key_top_bit":
+				// X25519 ignores the most significant bit of the peer's public
+				// key: a flip there is a modified ciphertext byte all the same
+				lo, hi = 31, 32
 			case "nonce":
 				lo, hi = 32, 44
 			case "ciphertext":
@@ -285,8 +290,13 @@ func (World) Execute(t *testing.T, s *engine.Script) *engine.Outcome {
 			if mask == 0 {
 				mask = 1
 			}
+			if region == "ephemeral_key_top_bit" {
+				mask = 0x80
+			}
 			st.ct[off] ^= mask
-			st.damaged = true
+			// two flips of the same bit restore the original: damaged means
+			// "differs from what the publisher stored"
+			st.damaged = !bytes.Equal(st.ct, st.orig)
 			st.damage = "bit-rot:" + region
 			o.Fault("stored_byte_corruption:" + region)
 			o.FP.Step("corrupt", i, off, mask)
@@ -311,7 +321,7 @@ func (World) Execute(t *testing.T, s *engine.Script) *engine.Outcome {
 				st.damage = "extended"
 				o.Fault("ciphertext_extended")
 			}
-			st.damaged = true
+			st.damaged = !bytes.Equal(st.ct, st.orig)
 			o.FP.Step("resize", i, d)
 		case "fetch":
 			if len(op.N) < 3 {
@@ -392,7 +402,7 @@ func encrypt(o *engine.Outcome, op *engine.Op, f *engine.Fault, store map[int64]
 	if len(ct) != 32+12+len(plain)+16 {
 		o.Violate("C16/ciphertext-layout", "ciphertext is %d bytes for a %d-byte plaintext (expected %d)", len(ct), len(plain), 60+len(plain))
 	}
-	store[op.N[0]] = &stored{ct: ct, plain: plain, client: client, sigType: op.Shape.Sig}
+	store[op.N[0]] = &stored{orig: append([]byte(nil), ct...), ct: ct, plain: plain, client: client, sigType: op.Shape.Sig}
 	o.FP.Step("encrypt", op.N[0], ct)
 }
 
@@ -600,6 +610,22 @@ func blind(t *testing.T, o *engine.Outcome, idx int, op *engine.Op) {
 		o.Guard("VerifyBlindedSignature", func() { okDerived = encrypted_leaseset.VerifyBlindedSignature(n.bd, dest, alpha) })
 		if !okDerived {
 			o.Violate(fmt.Sprintf("C16/blinded-destination-fails-own-check/sig%d", sig), "op %d node %d: VerifyBlindedSignature(blinded, original, DeriveBlindingFactor(secret, %s)) = false for a type-%d destination", idx, ni, day, sig)
+		}
+		// the check is about the triple (blinded, original, factor): a
+		// destination whose signing key differs from the blinded one in a
+		// single bit must fail it even with the derived factor
+		if len(n.out) >= 384 {
+			tb := append([]byte(nil), n.out...)
+			pos := 352 + int(op.N[2]>>3)%32
+			tb[pos] ^= 1 << (uint(op.N[2]) % 8)
+			if td, _, err := destination.ReadDestination(tb); err == nil {
+				var okT bool
+				o.Guard("VerifyBlindedSignature", func() { okT = encrypted_leaseset.VerifyBlindedSignature(td, dest, alpha) })
+				if okT {
+					o.Violate("C16/blinding-check-passes-for-a-different-blinded-key", "op %d node %d: VerifyBlindedSignature accepted a destination whose signing key differs from the blinded key in bit %d of byte %d", idx, ni, uint(op.N[2])%8, pos-352)
+				}
+				o.Fault("blinded_key_bit_flip")
+			}
 		}
 		others := map[string][32]byte{}
 		if a2, err := kdf.DeriveBlindingFactor(secret, dayString(n.unix+86400)); err == nil {
